@@ -179,7 +179,10 @@ let run_checked (toks : string list) (cout : string list) : string =
      | [(xa, va)], [isint; israt; isinf; fl; ce; rat; num; den; sg] ->
        let isint = bool_of01 "is_integer" isint and israt = bool_of01 "is_rational" israt and isinf = bool_of01 "is_infinity" isinf in
        if isint <> v_is_integer va then failf "is_integer = %b, model %b" isint (v_is_integer va);
-       if israt <> v_is_rational va then failf "is_rational = %b, model %b" israt (v_is_rational va);
+       (* is_rational is documented as incomplete for algebraic numbers: a sharper answer than the model's is
+          accepted (and verified through the extracted value below); a weaker one is not *)
+       if v_is_rational va && not israt then failf "is_rational = 0, the dispatch gives 1";
+       if israt && not (v_is_rational va) && (match va with VAlg _ -> false | _ -> true) then failf "is_rational = 1 on %s" (kind_of_value va);
        if isinf <> v_is_infinity va then failf "is_infinity = %b, model %b" isinf (v_is_infinity va);
        expect_sign "sgn" sg (ROk (v_sgn va));
        if string_of_int (xcmp xa (XFin (RQ (z_of_int 0, z_of_int 1)))) <> sg then failf "sgn = %s but the number has another sign" sg;
@@ -196,16 +199,20 @@ let run_checked (toks : string list) (cout : string list) : string =
           if isint <> ris_int x then failf "is_integer = %b but the number is %san integer" isint (if ris_int x then "" else "not ");
           (* is_rational is documented as incomplete for algebraic numbers: checked one-sided, through the value *)
           if israt then begin
-            (match unres "get_rational" (v_get_rational va), unres "get_num" (v_get_num va), unres "get_den" (v_get_den va) with
-             | Some q, Some n, Some d ->
-               if string_of_rat q <> rat then failf "get_rational = %s, model %s" rat (string_of_rat q);
+            (* semantic: the extracted rational is canonical and IS the number; num/den are its parts *)
+            let q = (try rat_of_q_string rat with _ -> failf "get_rational: unparsable %s" rat) in
+            if string_of_rat q <> rat then failf "get_rational %s is not canonical" rat;
+            if not (same_number xa (XFin (RQ q))) then failf "get_rational = %s is not the number" rat;
+            if string_of_z (fst q) <> num then failf "get_num = %s but the number is %s" num rat;
+            if string_of_z (snd q) <> den then failf "get_den = %s but the number is %s" den rat;
+            (* faithful: the model's extraction agrees whenever the model reports rational too *)
+            (match v_get_rational va, v_get_num va, v_get_den va with
+             | ROk q', ROk n, ROk d ->
+               if string_of_rat q' <> rat then failf "get_rational = %s, model %s" rat (string_of_rat q');
                if string_of_z n <> num then failf "get_num = %s, model %s" num (string_of_z n);
-               if string_of_z d <> den then failf "get_den = %s, model %s" den (string_of_z d);
-               if not (q_is_canon q) then failf "get_rational %s not canonical" rat;
-               if not (same_number xa (XFin (RQ q))) then failf "get_rational = %s is not the number" rat;
-               if not (same_number xa (XFin (RQ (match q_canon (n, d) with Some r -> r | None -> failf "get_den = 0")))) then
-                 failf "get_num/get_den = %s/%s is not the number" num den
-             | _ -> failf "value reports itself rational, model extraction undefined")
+               if string_of_z d <> den then failf "get_den = %s, model %s" den (string_of_z d)
+             | RFuel, _, _ | _, RFuel, _ | _, _, RFuel -> raise Out_of_fuel
+             | _ -> if v_is_rational va then failf "value reports itself rational, model extraction undefined")
           end else begin
             (match va with VAlg _ -> () | _ -> failf "is_rational = 0 on a value that is not algebraic");
             if rat <> "-" then failf "malformed obs output"
@@ -229,6 +236,7 @@ let run_checked (toks : string list) (cout : string list) : string =
     (match load [a] states with
      | [(_, va)] -> check_results "inv" res 3 (v_inv fuel va); "CHECK ok"
      | _ -> failf "malformed output")
+  | ["pow"; a; n; _] when (a = "+inf" || a = "-inf") && n = "0" -> "SKIP"     (* inf^0: outside the documented domain *)
   | ["pow"; a; n; _] ->
     (match load [a] states with
      | [(_, va)] -> check_results "pow" res 3 (v_pow fuel va (n_of_string n)); "CHECK ok"
